@@ -426,7 +426,7 @@ func TestVerifC17ImportArbitrary(t *testing.T) {
 			}
 			return models[k]
 		}
-		n := rapid.IntRange(3, maxUpd).Draw(t, "nupdates")
+		n := rapid.IntRange(4, maxUpd).Draw(t, "nupdates")
 		for j := 0; j < n; j++ {
 			peer := verifC17PeerA
 			if rapid.IntRange(0, 9).Draw(t, "peer") < 2 {
